@@ -50,6 +50,13 @@ def gen(tier, rng):
             b[pos // 8] ^= 0x80 >> (pos % 8)
             cases.append("pps %s raw:%s" % (ctx, hx(bytes(b))))
             cases.append("pps %s raw:%s" % (ctx, hx(rb + bytes([rng.choice([0, 0, 0x80, 1, 0xff])] * rng.randrange(1, 3)))))
+            # zero bytes behind the trailing bits and then more data, as an escaped NAL (the reader's chunks end at the
+            # emulation-prevention byte) and chunked right behind the zeros
+            junk = rb + bytes(rng.randrange(1, 5)) + rng.choice([b"\x01", b"\x80", b"\x02\xb0", b"\xff", b"\x01\x41"])
+            nalj = g.nal_bytes(8, 3, junk)
+            cut = max(1, min(len(nalj) - 1, len(g.nal_bytes(8, 3, rb)) + rng.randrange(0, 3)))
+            cases.append("pps %s %s" % (ctx, nal_src([nalj], True)))
+            cases.append("pps %s %s" % (ctx, nal_src([nalj[:cut], nalj[cut:]], True)))
         if m < 0.04:
             for k in range(len(rb)):
                 cases.append("pps %s raw:%s" % (ctx, hx(rb[:k])))
